@@ -3,6 +3,7 @@ import Zc.Proofs.LinkBridge
 import Zc.Proofs.LinkBridgeK2
 import Zc.Proofs.LinkBridgeK1
 import Zc.Proofs.LinkBridgeK3
+import Zc.Proofs.LinkBridgeK5
 import Zc.GenFacts.Link
 /-! # C07 — end-to-end discovery converges to the set of registered services
 
@@ -256,11 +257,25 @@ theorem C07_K3b_from_C10_partial (tr : Trace) (b : Br) (s : Svc) (types : List S
   Bridge.K3b_windows_main tr b s types tS pre0 tb d pre t a n ttl evsA tn opn rest s' outs hidle hnew0 hpre hnew hact hun hlate
     httl htb hbeyond hex hwire
 
-/-- the contracts that are still hypotheses once K1, K2, K6 (C08/C09 host machine) and K3 (C10 scheduler) are discharged -/
+/-- **K5 from the C04 / C05 / C06 models.**  `C04_live_eq_cache` (for every history — datagrams and purges before the browser
+exists, its creation with purge and replay, any datagrams and purges after — "reported Added and not since Removed" = "the cache
+holds the pointer record") composed with `Bridge.cache_track`, which folds C05's per-datagram `PostState` and `C05_purge_exact`
+along the history into a closed form for "the cache holds the pointer record" (`Bridge.track`: set by the last datagram with a live
+copy, cleared by a goodbye copy and by a purge at or after created + 1000·TTL; `Bridge.live_eq_track`).  The projection
+(`Bridge.CacheRun`) identifies the browser's Added / Removed events in the link trace with the callbacks of the run, instant by
+instant, and states C05/C06's expiry semantics in link terms: `heldFresh ⇒ track runs ⇒ heldGrace` (the second arrow is where
+the periodic purge — at most one cleanup period after the expiry — enters; K5's "one cleanup period of grace").  Hypotheses on
+the datagrams: `WFHistory` (C04's quantifier) and no cache-flush record on a browsed type name (`NoFlush`; pointer records are
+shared records). -/
+theorem C07_K5_from_C04 (tr : Trace) (endT : Int) (hruns : ∀ x ∈ browses tr, Bridge.CacheRun tr x.1 x.2) :
+    K5 Cfg.paper tr endT = true :=
+  Bridge.K5_of_cacheRuns tr endT hruns
+
+/-- the contracts that are still hypotheses once K1, K2, K6 (C08/C09 host machine), K3 (C10 scheduler) and K5 (C04 browser over
+the C05/C06 cache) are discharged -/
 structure C07_ContractsFromModels (lower : String → String) (tr : Trace) (endT : Int) : Prop where
   wf : WF Cfg.paper tr endT = true
   k4 : K4 Cfg.paper tr endT = true
-  k5 : K5 Cfg.paper tr endT = true
   k7 : K7 Cfg.paper tr endT = true
   k3b : K3b Cfg.paper tr endT = true
   /-- instead of K1, K2 and K6: every host's sends and `reg` / `upd` / `unreg` events are those of a disciplined, fair run of the
@@ -272,8 +287,11 @@ structure C07_ContractsFromModels (lower : String → String) (tr : Trace) (endT
   /-- instead of K3: every browser on a never-closed host is a history of C10's scheduler that goes beyond the window, its queries
   on the wire as C13 describes (`Bridge.WireAsk`) -/
   browsers : ∀ x ∈ browses tr, neverClosed tr x.2.host = true → Bridge.BrowserRun tr endT x.1 x.2
+  /-- instead of K5: every browser with the cache of its host is a run of the C04 model over the C05/C06 cache -/
+  caches : ∀ x ∈ browses tr, Bridge.CacheRun tr x.1 x.2
 
-/-- **C07 with K1, K2, K3 and K6 discharged** (partial: WF, K3b, K4, K5, K7 remain monitored hypotheses; K1, K2 and K6 are
+/-- **C07 with K1, K2, K3, K5 and K6 discharged** (partial: WF, K3b, K4, K7 remain monitored hypotheses; K5 is a theorem
+about the C04 browser model over the C05/C06 cache; K1, K2 and K6 are
 theorems about the C08/C09 host machine — K1 and K2's liveness half under the event-loop axiom `Fair`, which the block machines
 do not state; K3 is a theorem about C10's scheduler model, C13's question generation entering as the mapping `WireAsk`). -/
 theorem C07_convergence_from_models_partial (lower : String → String) :
@@ -282,7 +300,7 @@ theorem C07_convergence_from_models_partial (lower : String → String) :
   have hg := Bridge.Hosts_Generated lower tr endT hc.hosts
   exact C07_convergence_partial tr endT
     ⟨hc.wf, Bridge.K1_of_hosts lower tr endT hc.hosts, Bridge.K2_of_generated lower tr endT hg hc.byeMulticast,
-     Bridge.K3_of_browsers tr endT hc.browsers, hc.k4, hc.k5,
+     Bridge.K3_of_browsers tr endT hc.browsers, hc.k4, Bridge.K5_of_cacheRuns tr endT hc.caches,
      Bridge.K6_of_generated lower tr (Bridge.Generated_K6 lower tr endT hg), hc.k7, hc.k3b⟩
 
 /-- non-vacuity of the bridge: C08's example history (register, three announcements, a pointer answer queued in the protected
